@@ -304,6 +304,7 @@ class Conn(object):
     self.cid = cid
     self.sock = sock
     self.rx = b''              # bytes received from the client, not yet parsed by the peer
+    self.stream = b''          # every byte of the client's stream that reached the peer, in arrival order
     self.consumed = 0          # bytes of the client's stream already parsed by the peer
     self.written = 0           # bytes of the client's stream handed to sendall so far
     self.write_starts = []     # (stream offset, global seq, time) of every client sendall
@@ -468,6 +469,7 @@ class FakeG(object):
   def _deliver(self, data):
     if not self._conn.closed_by_peer and not self._conn.closed_by_client:
       self._conn.rx += data
+      self._conn.stream += data
       self.world.servers[self.port].on_data(self._conn)
 
   def send(self, data):
